@@ -30,7 +30,7 @@ Print Assumptions preacts_first_wins.
    interrupt ends evaluation for that tick: frames below it are not evaluated *)
 Theorem outline_top_down_first_wins : forall (O : TimeOps) (P : prog O) sub l1 t f l2 w w1 w2,
   segue_frames P sub t l1 w = (w1, false) -> crashed w1 = None ->
-  precur P sub t f (preacts (getf P f)) w1 = (w2, true) ->
+  precur P sub t f (preacts (getf P t f)) w1 = (w2, true) ->
   segue_frames P sub t (l1 ++ f :: l2) w = (w2, true).
 Proof. exact segue_first_frame_wins. Qed.
 Print Assumptions outline_top_down_first_wins.
